@@ -49,6 +49,27 @@ func Load(repo string, overlay map[string]string, pkgs []string, extraExec []str
 		Overlay:    ov,
 		Env:        append(os.Environ(), "GOFLAGS=-mod=mod", "GOPROXY=off", "GOSUMDB=off", "GOTOOLCHAIN=local"),
 	}
+	// module-internal dependencies of the harness packages are loaded from source as well
+	// (their bodies are executed); everything else comes from export data
+	depCfg := *cfg
+	depCfg.Mode = packages.NeedName | packages.NeedImports | packages.NeedDeps
+	depPkgs, err := packages.Load(&depCfg, pkgs...)
+	if err != nil {
+		return nil, err
+	}
+	seen := map[string]bool{}
+	for _, p := range pkgs {
+		seen[p] = true
+	}
+	packages.Visit(depPkgs, nil, func(p *packages.Package) {
+		if strings.HasPrefix(p.PkgPath, ModPath+"/") {
+			rel := "./" + strings.TrimPrefix(p.PkgPath, ModPath+"/")
+			if !seen[rel] {
+				seen[rel] = true
+				pkgs = append(pkgs, rel)
+			}
+		}
+	})
 	// LoadSyntax-style: syntax only for the listed packages, dependencies from export data
 	cfg.Mode &^= packages.NeedDeps
 	initial, err := packages.Load(cfg, pkgs...)
